@@ -43,6 +43,13 @@ def apply_pre(pre):
         gc.set_threshold(*pre['gc_threshold'])
     if pre.get('gc_debug'):
         gc.set_debug(pre['gc_debug'])
+    if pre.get('gc_debug_flags'):
+        # C18: the caller's debug flags by name (it may have on what -G names
+        # as well, or DEBUG_SAVEALL, which --gc-after-test uses itself)
+        v = 0
+        for name in pre['gc_debug_flags']:
+            v |= getattr(gc, name)
+        gc.set_debug(v)
     if pre.get('warn_filter'):
         warnings.filterwarnings('ignore', message='verif-pre-existing-filter')
     if pre.get('tb_patch'):
@@ -248,6 +255,8 @@ def run_job(job, scratch):
             t0 = _time.monotonic()
             while len(sys._current_frames()) > 1 and _time.monotonic() - t0 < 10:
                 _time.sleep(0.002)
+            # ... nor may threading remember a thread of this job (C19)
+            world.threads.forget_ended()
     if kind == 'stringio':
         res['stdout'] = out.getvalue()
         res['stderr'] = err.getvalue()
